@@ -14,8 +14,10 @@ A shift `σ = (a, b, t, u)`:
 are dead where they may differ:
 * `ts_flush` while `updated = 0` (`new` initialises it with the literal `IKCP_INTERVAL`),
 * `ts_probe` while `probe_wait = 0` (reset to the literal 0),
-* `ts`, `una` of a `snd_buf` entry while its `xmit = 0` (never transmitted: still the literal 0
-  of `newSegment`; both are overwritten at the first transmission).
+* `una` of a `snd_buf` entry while its `xmit = 0` (never transmitted: still the literal 0 of
+  `newSegment`; overwritten at the first transmission, never read before).
+(`ts` of a `snd_buf` entry is set to the clock on admission — fix 8db4321 — and is related
+unconditionally.)
 Core Lean only.
 -/
 import KcpVerif.Model.Kcp
@@ -104,18 +106,17 @@ structure SndRel (σ : Sigma) (s s' : Seg) : Prop where
   data     : s'.data = s.data
   sn       : s'.sn = s.sn + σ.a
   resendts : s'.resendts = s.resendts + σ.t
-  ts       : s.xmit ≠ 0 → s'.ts = s.ts + σ.t
+  ts       : s'.ts = s.ts + σ.t
   una      : s.xmit ≠ 0 → s'.una = s.una + σ.b
 
 /-- the canonical shifted `snd_buf` entry -/
 def shSnd (σ : Sigma) (s : Seg) : Seg :=
   { s with sn := s.sn + σ.a, resendts := s.resendts + σ.t,
-           ts := if s.xmit = 0 then s.ts else s.ts + σ.t,
+           ts := s.ts + σ.t,
            una := if s.xmit = 0 then s.una else s.una + σ.b }
 
 theorem sndRel_shSnd (σ : Sigma) (s : Seg) : SndRel σ s (shSnd σ s) := by
   constructor <;> (try rfl)
-  · intro h; simp only [shSnd, if_neg h]
   · intro h; simp only [shSnd, if_neg h]
 
 /-! ### states -/
